@@ -260,6 +260,9 @@ static void collect_after_run(Prepared &p, GraphExecutorValue &ex, RunCtx &ctx, 
         }
         recorded += "}";
     }
+    // the eval_node / lower idiom: after the run the graph's global state is copied back into the state selected by the
+    // GlobalContext that spans several wire + run rounds
+    if (ctx.copy_back) if (auto *state = GlobalContext::active_state()) state->view().copy_from(ex.view().graph().global_state());
     if (auto *keys = pj.get("gs_keys")) {
         std::string g = "[\"gs\",{";
         bool first = true;
@@ -455,6 +458,39 @@ std::string handle_batch(const JV &req) {
         fo += "]";
         out += ",\"foreign_runs\":" + fo + ",\"host_size\":" + std::to_string(host.view().size()) +
                ",\"host_secret\":" + (host.view().contains("hv.host.secret") ? "true" : "false");
+    }
+    // ---- shared-context stage: ONE GlobalContext (over a state of its own) spans several wire + build + run rounds on the main
+    // thread, and after every run the graph's global state is copied back into it (what eval_node and lower do), so each
+    // wiring is seeded with whatever the earlier rounds left behind.
+    if (auto *sh = req.get("shared")) {
+        std::string so = "[";
+        {
+            GlobalContext gc;
+            bool first = true;
+            for (auto &e : sh->a) {
+                const std::size_t pi = (std::size_t)e.as_int();
+                const JV &pj = req.at("progs").a.at(pi);
+                RunCtx c;
+                c.snap = pj.bool_or("snap", false);
+                c.node_events = pj.bool_or("node_events", true);
+                c.copy_back = true;
+                std::string err, rec, berr;
+                try {
+                    Prepared q;
+                    prepare(q, pj);
+                    if (!q.error.empty()) berr = q.error; else run_prepared(q, c, err, rec);
+                } catch (const std::exception &ex) { err = err_json("shared", ex); }
+                if (!first) so += ',';
+                first = false;
+                so += "{\"p\":" + std::to_string(pi) + ",\"trace\":";
+                emit_trace(so, c);
+                so += ",\"error\":" + (err.empty() ? std::string{"null"} : err) + ",\"build_error\":" + (berr.empty() ? std::string{"null"} : berr);
+                if (!rec.empty()) so += ",\"recorded\":" + rec;
+                so += "}";
+            }
+        }
+        so += "]";
+        out += ",\"shared_runs\":" + so;
     }
     out += "}";
     return out;
